@@ -246,6 +246,63 @@ DOC_EXCEPTIONS = {
 }
 
 
+def _shared_source(ctx, mod, e):
+    """`e` hands out a module-level table as is or through a one-level copy:
+    returns the name of the table."""
+    src = None
+    if isinstance(e, ast.Name):
+        src = e
+    elif isinstance(e, ast.Call):
+        d = dotted(e.func) or ''
+        if d in ('dict', 'copy.copy', 'copy') and len(e.args) == 1 and not e.keywords:
+            src = e.args[0]
+        elif isinstance(e.func, ast.Attribute) and e.func.attr == 'copy' and not e.args:
+            src = e.func.value
+    if isinstance(src, ast.Name) and src.id in mod.assigns:
+        return src.id
+    return None
+
+
+def _nested_fill_sites(run, ctx, has_nested):
+    """get_config fills the nested containers of a section's dict in place
+    (d[k1][k2] = v): the dict so filled must not be a module-level table or a one-level
+    copy of one - whatever watcher_defaults() itself does."""
+    from sa.dataflow import reaching_defs
+    f = ctx.fn('circus.config:get_config')
+    mod = ctx.p.mod('circus.config')
+    rd = reaching_defs(ctx, f)
+    cfg = ctx.cfg(f)
+    n = 0
+    seen = set()
+    for node in ctx.live_nodes(f):
+        if node.kind != 'stmt' or not isinstance(node.ast, (ast.Assign, ast.AugAssign)):
+            continue
+        tgts = node.ast.targets if isinstance(node.ast, ast.Assign) else [node.ast.target]
+        for t in tgts:
+            if not (isinstance(t, ast.Subscript) and isinstance(t.value, ast.Subscript) and
+                    isinstance(t.value.value, ast.Name)):
+                continue
+            base = t.value.value
+            n += 1
+            for alt in rd.expand(node, base):
+                shared = _shared_source(ctx, mod, alt.expr)
+                key = (base.id, shared)
+                if key in seen:
+                    continue
+                seen.add(key)
+                run.check('R1', not (shared and has_nested),
+                          'the dict whose nested containers get_config fills in place is '
+                          'built for that section alone', f, node.ast,
+                          'get_config fills %s in place, and %s comes from the module-level '
+                          'table %s (as is or through a one-level copy): its nested dicts are '
+                          'one object shared by every watcher section and by every later '
+                          'parse, so rlimit_*/hooks.*/stream options of one watcher show up '
+                          'in all others, and a reload compares the new configuration with '
+                          'itself' % (norm_text(t.value), base.id, shared),
+                          construct='watcher defaults share nested containers')
+    run.count('R1', n, 3, 'in-place fills of nested option containers in get_config')
+
+
 def r1(run, ctx):
     run.rule('R1', 'documented defaults = parser defaults = constructor defaults')
     # every watcher section starts from its OWN defaults: the nested containers
@@ -260,6 +317,7 @@ def r1(run, ctx):
               'rlimit_*/hooks.*/stream options of one watcher show up in all others and survive '
               'a reload' % ({'shallow': 'shallow copy', 'alias': 'reference'}.get(how_, how_),
                             nested), construct='watcher defaults share nested containers')
+    _nested_fill_sites(run, ctx, bool(nested))
     doc = doc_defaults(ctx)
     pd, pf = parser_defaults(ctx)
     cd, cf = ctor_defaults(ctx)
